@@ -70,7 +70,11 @@ def expr(n: ast.AST) -> str:
         return f"(EDict {coq_list(items)})"
     if isinstance(n, ast.Subscript):
         if isinstance(n.slice, ast.Slice):
-            raise Unsupported("slice")
+            if n.slice.step is not None:
+                raise Unsupported("slice step")
+            lo = expr(n.slice.lower) if n.slice.lower is not None else "ENone"
+            hi = expr(n.slice.upper) if n.slice.upper is not None else "ENone"
+            return f"(ESlice {expr(n.value)} {lo} {hi})"
         return f"(EIndex {expr(n.value)} {expr(n.slice)})"
     if isinstance(n, ast.Attribute):
         return f"(EAttr {expr(n.value)} {coq_str(n.attr)})"
